@@ -58,6 +58,9 @@ def gen(rng):
         tdir, top, _u = rng.choice(locs)
         nm = 'e%d' % i
         loc = (L['home'] + '/w/' + nm) if top is None else (L['work'][top] + '/' + nm)
+        if rng.random() < 0.04:
+            # a deep location of multi-byte names: the escaped Path line is 5-12 KB long and the DeletionDate comes after it
+            loc = posixpath.dirname(loc) + '/' + '/'.join(rng.choice(['é', 'ж', '日']) * rng.choice([60, 80]) + str(k_) for k_ in range(rng.randint(9, 13))) + '/' + nm
         pv = TG.pct(loc if top is None else loc[len(top) + 1:])
         r = rng.random()
         base = now.replace(microsecond=0)
@@ -101,6 +104,10 @@ def gen(rng):
         tdir = rng.choice(locs)[0]
         steps.append(['d', tdir + '/files', 0o700])
         steps.append(['f', tdir + '/files/orphan_payload', 'o', 0o644])
+    if rng.random() < 0.12:
+        # an entry whose .trashinfo cannot be read at all (a symlink to a file on an unplugged drive, a link loop, a link to a
+        # directory): it has no usable date - with DAYS it is kept, whole
+        TG.add_malformed(rng, steps, rng.choice(locs)[0], rng.choice(['info_dangling_link', 'info_loop_link', 'info_link_to_dir']), 'u')
     argv = ['trash-empty']
     if rng.random() < 0.2:
         argv.append(rng.choice(['-v', '-f']))
